@@ -317,3 +317,96 @@ def check_c14(rep, tier, seed, wd, replay):
                     [cw.case_replay(c) for c in fcases[:2]],
                     {"input_distribution": hist, "fault_runs": len(fcases), "base_workloads": len(base), "disagreements": nd + nd2, "exhaustive": len(fcases) < budget})
     return cov, ["a sink that returns a short count with a nil error violates io.Writer and is outside the property"]
+
+
+# ------------------------------------------------------------------ lexer family
+import chk_lex as cl  # noqa: E402
+import mcapspec  # noqa: E402
+
+
+def lex_corr(rep, cases, wd, tag="lex"):
+    go, model, crashed = cl.run_lex(cases, wd, tag)
+    for cmd, rc, err in crashed:
+        rep.add_violation("executor-crash", "%s exited %s: %s" % (cmd, rc, err), [], failing_input=False)
+    nd = 0
+    for c in cases:
+        g, m = go.get(c["id"]), model.get(c["id"])
+        d = cl.diff_lex(g, m)
+        if d:
+            nd += 1
+            c["_disagree"] = d
+    return go, model, nd
+
+
+def events_prefix(short, full):
+    """short is a prefix of full, except that the last attachment event may carry fewer data bytes."""
+    if len(short) > len(full):
+        return False
+    for i, e in enumerate(short):
+        if e == full[i]:
+            continue
+        if i == len(short) - 1 and e.startswith("att ") and full[i].startswith("att "):
+            a, b = e.split(" "), full[i].split(" ")
+            if a[1:6] == b[1:6] and (a[6] == "-" or b[6].startswith(a[6])):
+                continue
+        return False
+    return True
+
+
+@prop("C09")
+def check_c09(rep, tier, seed, wd, replay):
+    nfiles = 24 if tier == "quick" else 300
+    maxlen = 1500 if tier == "quick" else 16000
+    files, crashed = cl.written_files(seed * 1000 + 9, nfiles * 2, "c09f", wd, nmax=10)
+    files = [f for f in files if len(f["file"]) <= maxlen][:nfiles]
+    cases = []
+    for fi, f in enumerate(files):
+        validate = fi % 2
+        seek = (fi // 2) % 2
+        lo = {"validate": validate, "cb": "full", "skipmagic": 1 if f["o"]["skipmagic"] else 0}
+        f["lo"] = lo
+        cases.append({"id": "%s_full" % f["id"], "file": f["file"], "lopts": lo, "src": {"seek": seek}, "base": f})
+        for cut in range(len(f["file"])):
+            cases.append({"id": "%s_cut%d" % (f["id"], cut), "file": f["file"][:cut], "lopts": lo, "src": {"seek": seek}, "base": f, "cut": cut})
+    go, model, nd = lex_corr(rep, cases, wd, "c09")
+    ncuts = 0
+    for c in cases:
+        g = go.get(c["id"])
+        probs = []
+        if g is not None and "cut" in c:
+            ncuts += 1
+            full = go.get("%s_full" % c["base"]["id"])
+            if g["panic"]:
+                probs.append("lexer crashed on the truncated file: %s" % g["panic"])
+            elif g["new"] == "ok" and full:
+                if not events_prefix(g["events"], full["events"]):
+                    probs.append("records returned for the truncated file are not a prefix of the original sequence")
+                if g["end"] is None:
+                    probs.append("read of a truncated file did not end")
+                # completeness: every message of every chunk wholly before the cut
+                if "chunk_ends" not in c["base"]:
+                    try:
+                        d = mcapspec.decode(c["base"]["file"], cw.plain_lookup(c["base"]["g"]), skip_magic=c["base"]["o"]["skipmagic"])
+                        ends = []
+                        nm = 0
+                        for ch in d["chunks"]:
+                            nm_in = len(ch["msgs"])
+                            ends.append((ch["offset"] + ch["length"], nm_in))
+                        c["base"]["chunk_ends"] = ends
+                    except mcapspec.SpecError:
+                        c["base"]["chunk_ends"] = []
+                want = sum(n for end, n in c["base"]["chunk_ends"] if end <= c["cut"])
+                got = sum(1 for e in g["events"] if e.startswith("tok 5 "))
+                if got < want and not c["base"]["lo"]["validate"] is None:
+                    probs.append("cut at %d: %d messages of completely written chunks, only %d returned" % (c["cut"], want, got))
+        for p in probs:
+            rep.add_violation("oracle", "case %s: %s" % (c["id"], p), cl.lex_replay(c))
+        if c.get("_disagree"):
+            rep.add_violation("correspondence", "case %s: %s" % (c["id"], c["_disagree"]), cl.lex_replay(c), failing_input=bool(probs))
+    distinct = len(set((c["base"]["id"], c.get("cut")) for c in cases))
+    cov = summarize(rep, len(cases), distinct,
+                    "files written by the real writer (none/zstd/lz4/xor, chunked or not), every cut position 0..len-1 (exhaustive per file), validation on/off, seekable/non-seekable source, attachment callback reading all data; compared with the lexer model event by event; oracle: events of the cut file are a prefix of the uncut file's (last attachment may have fewer data bytes), the read ends, no crash, all messages of fully written chunks returned",
+                    [cl.lex_replay(c)[:4] for c in cases[1:3]],
+                    {"files": len(files), "cuts": ncuts, "disagreements": nd, "exhaustive": True,
+                     "compressions": sorted(set(f["o"]["comp"] for f in files))})
+    return cov, ["streaming decompressors are oracles: their behaviour on each truncated payload is recorded by calling the codec directly"]
